@@ -85,14 +85,18 @@ theorem step_preserves (fs : Fs) (h : Inv fs) (e : FsEvent) (hok : okEvent fs e 
     · intro l hl
       exact ⟨k, hlat, Nat.le_of_lt (hok.2 l (latest_mem fs l hl))⟩
   | delStart j =>
-    simp only [okEvent, Bool.and_eq_true, List.contains_eq_mem, Bool.not_eq_true'] at hok
-    obtain ⟨⟨hjc, _⟩, hlt⟩ := hok
+    simp only [okEvent, Bool.and_eq_true, List.contains_eq_mem] at hok
+    obtain ⟨hjc, hlt⟩ := hok
     have hlatest : (fs.step (.delStart j)).latest = fs.latest := rfl
     refine ⟨⟨h.asc, ?_, h.tmp⟩, fun l hl => ⟨l, by rw [hlatest]; exact hl, Nat.le_refl _⟩, fun k hk => by cases hk⟩
     intro j' hj'
-    simp only [Fs.step, List.mem_append, List.mem_singleton] at hj'
-    rcases hj' with hj' | rfl
-    · exact h.del j' hj'
+    have hcases : j' ∈ fs.deleting ∨ j' = j := by
+      simp only [Fs.step] at hj'
+      split at hj'
+      · left; exact hj'
+      · simpa using hj'
+    rcases hcases with hj'' | rfl
+    · exact h.del j' hj''
     · refine ⟨by simpa [Fs.step] using hjc, ?_⟩
       rw [hlatest]
       cases hl : fs.latest with
